@@ -23,6 +23,17 @@ class OutsideSubset(Exception):
     pass
 
 
+class PathEnd(Exception):
+    """raised by a call handler after it emitted the obligation 'this call is unreachable under the contract's precondition'"""
+
+
+def unreachable(name):
+    def h(vc, P, args, kw, e):
+        vc.oblige(f'unreachable:{name}@{e.lineno}', P, False, line=e.lineno)
+        raise PathEnd()
+    return h
+
+
 # ------------------------------------------------------------------ values
 class _None:
     def __repr__(self): return 'NONE'
@@ -717,7 +728,10 @@ class VC:
     def stmt(self, st, P):
         m = getattr(self, 'st_' + type(st).__name__, None)
         if m is None: raise OutsideSubset(f'statement {type(st).__name__} @{st.lineno}')
-        return m(st, P)
+        try:
+            return m(st, P)
+        except PathEnd:
+            return []
 
     def st_Expr(self, st, P):
         if isinstance(st.value, ast.Constant): return [(P, None)]
@@ -768,6 +782,7 @@ class VC:
         return []
 
     def exit_return(self, P, v, line):
+        P.env['__result_raw'] = v          # the returned reference itself (identity), for "returns self" clauses
         E = EnvView(P)
         for r in self.c.exit_reveal:
             P.pc.append(zbool(r(self.A, P.deref(v), E)))
